@@ -113,6 +113,15 @@ var mixedLists = map[string]struct {
 		"query Op { tools { label ... on Gizmo { stock } ... on Hammer { label heft } } }"}, [2]string{"B", "Gizmo"}},
 }
 
+// per fixture: queries over one abstract field whose boundary member types are extended by DIFFERENT services, so that
+// several child steps, one per member type and service, share one insertion point
+var memberServices = map[string][]string{
+	"movies": {"query Op { animals { name ... on Cat { lives } ... on Dog { bark } } }", "query Op { animals { ... on Dog { bark name } ... on Cat { name lives } __typename } }",
+		"query Op { things { __typename ... on Person { nick } ... on Review { helpful } } }", "query Op { things { ... on Review { helpful stars } ... on Person { name nick films { id } } } }",
+		"query Op { pet { ... on Dog { bark } ... on Cat { lives } } animals { ... on Cat { lives } ... on Dog { bark } } }"},
+	"shared": {"query Op { tools { label ... on Gizmo { stock } ... on Wrench { keeper { id } } } }", "query Op { tools { ... on Wrench { keeper { id } label } ... on Gizmo { price stock } } }"},
+}
+
 // per fixture: queries selecting non-null fields that a lookup service supplies (for the fault-free runs over data in which
 // some entities are unknown to some services)
 var silentQueries = map[string][]string{
@@ -221,9 +230,9 @@ func runProfile(cfg runCfg, prof string) error {
 			env.world.data = genData(r, env.fed, dataOpts{nullProb: 0, safeStrings: true})
 			h := hostilePool[i%len(hostilePool)]
 			if i < len(hostilePool) {
-				q = "query Op($v1: String, $v2: String) { echoRoot(s: $v1) movies { id echoArg(s: " + gqlQuote(h) + ") x: echoArg(s: $v2) } }"
+				q = "query Op($v1: String, $v2: String) { echoRoot(s: $v1) movies { id echoArg(s: " + gqlQuote(h) + ") x: echoArg(s: $v2) z: echoC(s: " + gqlQuote(h) + ") } }"
 			} else {
-				q = "query Op($v1: String, $v2: String) { echoRoot(s: $v2) movies { id x: echoArg(s: $v1, l: [" + gqlQuote(h) + ", \"$v2\"]) } }"
+				q = "query Op($v1: String, $v2: String) { echoRoot(s: $v2) movies { id x: echoArg(s: $v1, l: [" + gqlQuote(h) + ", \"$v2\"]) z: echoC(l: [" + gqlQuote(h) + "]) } }"
 			}
 			vars = map[string]interface{}{"v1": hostilePool[(i+5)%len(hostilePool)], "v2": h}
 			doc, _ = loadQuery(env.gw.es.MergedSchema, q)
@@ -250,6 +259,14 @@ func runProfile(cfg runCfg, prof string) error {
 					sum.Features["namespace_selected_twice"]++
 				}
 			}
+		}
+		if ms, ok := memberServices[env.fx.Name]; ok && (prof == "c01" || prof == "c04") && !big && r.Intn(10) == 0 {
+			q, vars = ms[r.Intn(len(ms))], map[string]interface{}{}
+			doc, _ = loadQuery(env.gw.es.MergedSchema, q)
+			if doc == nil {
+				return fmt.Errorf("directed query does not validate: %s", q)
+			}
+			sum.Features["member_types_extended_by_different_services"]++
 		}
 		if big {
 			// more than 50 entities behind one lookup: the single-entity lookups of services A and C are sent in batches
@@ -456,6 +473,69 @@ func runProfile(cfg runCfg, prof string) error {
 					sum.CaseInputs[n2] = in2
 					sum.Features["same_document_other_conditions"]++
 				}
+			}
+		}
+		if prof == "c16" && len(faults) == 0 {
+			// the same document text once more on the same gateway: after a caller who may use only the first root field, and
+			// after ANOTHER operation of the same document that shares a fragment with this one.  What an earlier request did
+			// to its own copy of the document must not reach this one: every root field is still delivered, once.
+			var again *e2eRun
+			in2 := map[string]interface{}{}
+			for k, v := range in {
+				in2[k] = v
+			}
+			switch i % 3 {
+			case 0:
+				var first *ast.Field
+				for _, s := range doc.Operations[0].SelectionSet {
+					if f, ok := s.(*ast.Field); ok && f.Name != "__typename" {
+						first = f
+						break
+					}
+				}
+				if first != nil {
+					p := bramble.OperationPermissions{AllowedRootMutationFields: bramble.AllowedFields{AllowedSubfields: map[string]bramble.AllowedFields{first.Name: {AllowAll: true}}}}
+					env.gw.perm.perms[name+"-r"] = p
+					if _, err := env.run(q, vars, map[string]string{"X-Perm": name + "-r"}); err == nil {
+						again, _ = env.run(q, vars, hdr)
+						in2["history"] = "sent right after the same document from a caller who may only use the root mutation field " + first.Name
+						sum.Features["same_document_after_a_restricted_caller"]++
+					}
+				}
+			case 1:
+				if ob := strings.Index(q, "{"); ob >= 0 && strings.HasPrefix(q, "mutation Op") {
+					depth, cb := 0, -1
+					for j := ob; j < len(q) && cb < 0; j++ {
+						switch q[j] {
+						case '{':
+							depth++
+						case '}':
+							if depth--; depth == 0 {
+								cb = j
+							}
+						}
+					}
+					if cb > 0 {
+						decl, sel, rest := q[len("mutation Op"):ob], q[ob+1:cb], q[cb+1:]
+						q2 := "mutation Op" + decl + "{ ...ZZBoth }\nmutation ZZFirst" + decl + "{" + sel + " ...ZZBoth }\nfragment ZZBoth on Mutation {" + sel + "}" + rest
+						if _, gerr := loadQuery(env.gw.es.MergedSchema, q2); gerr == nil {
+							if _, err := env.runNamed(q2, vars, hdr, "ZZFirst"); err == nil {
+								again, _ = env.runNamed(q2, vars, hdr, "Op")
+								in2["query"], in2["operationName"] = q2, "Op"
+								in2["history"] = "sent right after operation ZZFirst of the same document, which selects the same root fields directly and through the shared fragment"
+								sum.Features["operation_after_a_sibling_operation_sharing_a_fragment"]++
+							}
+						}
+					}
+				}
+			}
+			if again != nil && len(again.Resp.Body) < 60000 {
+				n2 := name + "-again"
+				w.add(n2, emitE2ECase(env, again, opts))
+				sum.GoOracle = append(sum.GoOracle, oracleResult{Case: n2, Component: "guard.no_foreign_abstract_condition", OK: !foreign})
+				in2["gateway_data"], in2["gateway_errors"] = fmt.Sprint(again.Resp.Data), errorSummary(again.Resp.Errors)
+				sum.CaseInputs[n2] = in2
+				sum.GoOracle = append(sum.GoOracle, mutationOracle(env, again, n2, false)...)
 			}
 		}
 		if len(sum.Samples) < 4 {
